@@ -1468,7 +1468,8 @@ def run(ctx):
                 if c.get('sweep') and not isinstance(err, str):
                     extra += ' = %.0f * requested tol; errors/tol of the whole sweep: %s' % (
                         err / c['tol'], ['%g: %.3g' % (cc['tol'], (rr[0] / cc['tol']) if not isinstance(rr[0], str) else float('nan')) for cc, rr in zip(seq, res)])
-                # classify: the same call re-issued (same process, right after) with skipcount=10**6, i.e. never stopping on skipped rows
+                # classify: the same call re-issued (same process, right after) with skipcount=10**6, i.e. never stopping on skipped rows.
+                # gal:aca-slice-skip is FIXED in /repo (2247491): the key only names the cause; a recurrence is an unlisted VIOLATION.
                 key_ = ('gal-fast-tol:' if c.get('sweep') else 'gal-hist:') + c['fn']
                 if len(c['ps']) == 3 and err_noskip is not None and err_noskip <= fast_bound(c, mx):
                     key_ = 'gal:aca-slice-skip'
